@@ -1,5 +1,5 @@
 """C03 - calls pass arguments by value into isolated frames and reach the chosen overload."""
-from .. import genx
+from .. import genmod, genx
 from . import c01
 
 LEVEL = "exploration"
@@ -9,7 +9,9 @@ RULE = ("Hypothesis programs (genx.calls_case): an exported caller plus 1-4 help
         "decreasing int parameter (parameters re-read after the recursive call returned), overloads by int/float and by "
         "vector type with exactly matching arguments; the caller reads its own parameters and locals after the calls. "
         "Arguments are scalars, float2/float3/int2 vectors and float3x3 matrices. Oracle: reference interpreter with "
-        "explicit frames and value copies (returned value, globals, host argument objects untouched). Non-trivial = "
+        "explicit frames and value copies (returned value, globals, host argument objects untouched). A second part "
+        "(vf/genmod.py) puts callees into imported modules, with overload sets split between importer and imported "
+        "module, and compares the linked program with the same functions compiled as one module. Non-trivial = "
         "the executed trace contains a callee writing one of its parameters followed by the caller reading one of its "
         "own parameters, or recursion depth >= 2; distinct by (source, input).")
 ASSUMPTIONS = [
@@ -35,7 +37,19 @@ def check(ctx, case):
     c01.check_case(ctx, case, prop="C03", nontrivial=nontrivial, extra_labels=NOTES, check_args=True)
 
 
+def across_modules(ctx, case):
+    """the callee selected by the static argument types may live in an imported module (overload sets split over
+    modules): same oracle as C16 - the multi-module program behaves like the same functions in one module"""
+    from . import c16
+    names = [f.name for f in case.prog.funcs]
+    c16.check(ctx, case)
+    if len(set(names)) != len(names):
+        ctx.label("overload-set-split-over-modules")
+
+
 def run(R):
+    R.hyp("calls-across-modules", genmod.modules_case(), across_modules, examples=R.pick(60, 1200))
+    R.require("overload-set-split-over-modules")
     R.hyp("calls", genx.calls_case(), check, examples=R.pick(250, 5000), shrink="ast")
     for l in NOTES[:5] + ["program-with-overloads", "program-with-recursion"]:
         R.require(l)
